@@ -122,7 +122,10 @@ Definition add_failed (s : st) (sched : bool) (sns ens : Z) : st :=
      dest := dest s |}.
 
 (* the part shared (textually duplicated in the Go code) by ExecuteCQ and handleExecute once
-   the window is fixed: aggregation, then record-and-advance *)
+   the window is fixed: aggregation, then record-and-advance.  [fail] = executeAggregation returns
+   an error: the aggregation query fails, OR the query succeeds and the write of its rows to the
+   destination measurement fails (ingest buffer rejects the batch / no buffer).  Either way the
+   execution is recorded as failed, nothing reaches the destination and the pointer stays. *)
 Definition run_window (sched : bool) (s : st) (sns ens : Z) (fail : bool) (crash : option crashpt)
   : st * outcome :=
   if fail then (add_failed s sched sns ens, OFailed (sns / ns) (ens / ns))
@@ -298,6 +301,10 @@ Fixpoint no_advance_ok (prev : option Z) (outs : list obs_out) : bool :=
   | o :: r => (if N.eqb (oo_code o) 1 then true else opt_eqb prev (oo_lp o)) && no_advance_ok (oo_lp o) r
   end.
 
+(* every completed execution has written its window's row to the destination measurement *)
+Definition has_row (dest : list row) (e : exec) : bool :=
+  negb (e_ok e) || existsb (fun r => (r_ws r =? e_s e) && (r_we r =? e_e e)) dest.
+
 (* the pointer never moves backwards *)
 Fixpoint lp_monotone (prev : option Z) (outs : list obs_out) : bool :=
   match outs with
@@ -313,7 +320,8 @@ Fixpoint lp_monotone (prev : option Z) (outs : list obs_out) : bool :=
    (C29_history, C29_label, C29_failure_no_advance, C29_pointer_monotone, C29_sched_disjoint,
    C29_no_gap): the pointer is what the log implies, every scheduled run starts at it, it never
    moves backwards, non-completing operations leave it alone, completed scheduled windows do not
-   overlap and leave no gap, rows are labelled with their window start *)
+   overlap and leave no gap, rows are labelled with their window start, and every completed
+   execution's row is in the destination (C29_completed_has_rows) *)
 Definition case_oracle (c : ccase) : bool :=
   opt_eqb (final_lp c) (ptr_of (rev (c_execs c))) &&
   starts_at_ptr (rev (c_execs c)) &&
@@ -321,7 +329,8 @@ Definition case_oracle (c : ccase) : bool :=
   no_advance_ok None (c_outs c) &&
   lp_monotone None (c_outs c) &&
   sortedb (completed_sched (c_execs c)) &&
-  gap_free (rev (c_execs c)).
+  gap_free (rev (c_execs c)) &&
+  forallb (has_row (c_dest c)) (c_execs c).
 
 (* all completed windows tile (holds when no effective manual run names a start) *)
 Definition case_tiles (c : ccase) : bool := chainb (completed (c_execs c)).
